@@ -122,6 +122,58 @@ def observe(at, cm, post, fit):
     return o
 
 
+def observe_limited(at, cm, post, limit):
+    """static inference with an angle limit: which physical interfaces are left out, and how far the decisive opening angles
+    (computed through the library's own public tangent call, as the limit test does) are from the limit"""
+    import itertools
+    r = SC.solve_static(at, k=3, cmap=cm, fit="taubinSVD", post=post, allow_negatives=False, angle_limit=limit)
+    o = {"exc": None, "limit": limit}
+    if r.exc is not None:
+        o["exc"] = fsutil.exc_str(r.exc)
+        return o
+    mb = T.match_big_edges(r.frame, r.info, at)
+    phys = {}
+    for be in r.frame.internal_big_edges:
+        path = mb.get(be.big_edge_id)
+        phys[be.big_edge_id] = path[0][0] if path and len(path) == 1 else None
+    used = {tuple(x) for x in r.fm.big_edges_to_use}
+    o["excluded"] = sorted(str(phys[be.big_edge_id]) for be in r.frame.internal_big_edges if tuple(be.get_vertices_ids()) not in used)
+    margin = math.inf
+    ends = {be.get_vertices_ids()[0] for be in r.frame.internal_big_edges} | {be.get_vertices_ids()[-1] for be in r.frame.internal_big_edges}
+    import forsys.virtual_edges as ve
+    f1 = 0
+    with fsutil.quiet(), np.errstate(all="ignore"):
+        for vid in ends:
+            vx = r.frame.vertices[vid]
+            vers = [r.frame.big_edges[b].get_versor_from_vertex(vid, fit_method="taubinSVD") for b in vx.own_big_edges]
+            angs = [float(np.arccos(np.clip(np.dot(a, b), -1, 1))) for a, b in itertools.combinations(vers, 2)]
+            if angs:
+                margin = min(margin, abs(max(angs) - limit))
+            # F1 attribution: the limit test uses the tangents of ALL interfaces at the junction, external ones included; a tangent
+            # that equals the per-component sign-forced one instead of the circle's is a mirrored tangent (finding F1)
+            for b, w in zip(vx.own_big_edges, vers):
+                be = r.frame.big_edges[b]
+                pts = [complex(x.x, x.y) for x in be.vertices]
+                if be.vertices[0].id != vid:
+                    pts = pts[::-1]
+                if len(pts) < 3 or be.is_straight():
+                    continue
+                xc, yc = ve.calculate_circle_center(be.vertices, method="taubinSVD")
+                exp = 1j * (pts[0] - complex(xc, yc))
+                exp = exp / abs(exp)
+                chord = pts[1] - pts[0]
+                if exp.real * chord.real + exp.imag * chord.imag < 0:
+                    exp = -exp
+                got = complex(w[0], w[1])
+                pred = complex(abs(exp.real) * (1.0 if chord.real == 0 else math.copysign(1.0, chord.real)), abs(exp.imag) * (1.0 if chord.imag == 0 else math.copysign(1.0, chord.imag)))
+                if abs(got - exp) > 1e-9 and abs(got - pred) <= 1e-9:
+                    f1 += 1
+    o["margin"] = margin
+    o["f1_versors"] = f1
+    o["tension"] = {str(ii): float(x) for ii, x in zip(r.cols, r.forces)} if None not in r.cols else None
+    return o
+
+
 class Poses:
     chunk = 2
 
@@ -139,6 +191,17 @@ class Poses:
 
     def initial(self):
         return [{"t": ti, "chain": []} for ti in range(len(self.tissues))]
+
+    def limit_of(self, ti):
+        """an angle limit (a pure number, the same in every pose) that excludes some interfaces of tissue ti"""
+        if not hasattr(self, "_limits"):
+            self._limits = {}
+        if ti not in self._limits:
+            from checks import c10
+            base, mobspec, noise = self.tissues[ti]
+            at = bases.get(base)
+            self._limits[ti] = c10.angle_limit_for(at, SC.make_cmap(mobspec, 0.0, (0, 0), 1.0, SC.extent_of(at)))
+        return self._limits[ti]
 
     def actions(self, d):
         els = self.els(d["t"])
@@ -175,6 +238,7 @@ class Poses:
                 jp, ip = inner(jpos, ipts)
                 return {j: tail(z) for j, z in jp.items()}, [[tail(z) for z in pts] for pts in ip]
         obs = {fit: observe(at, cm, post, fit) for fit in FITS}
+        obs["limited"] = observe_limited(at, cm, post, self.limit_of(d["t"]))
         tags = sorted({g[0] for g in chain})
         tags = [{"tr": "translate", "rot": "rotate", "refx": "reflect", "refy": "reflect", "refd": "reflect", "sc": "scale"}[t] for t in tags]
         if noise:
@@ -220,6 +284,19 @@ class Poses:
                     off += max(abs(x[1]), abs(x[2]))
             worst_off = max(worst_off, off / cur)
         far = worst_off >= 1e2
+        l1, l2 = r["obs"].get("limited"), r2["obs"].get("limited")
+        if l1 and l2:
+            if (l1["exc"] is None) != (l2["exc"] is None):
+                viol.append({"what": "[%s] inference with an angle limit raises in one pose only" % g[0], "detail": [l1["exc"], l2["exc"]]})
+            elif l1["exc"] is None and l1["excluded"] != l2["excluded"]:
+                f1_any = any(v_[4] == "f1" for o_ in (r["obs"]["taubinSVD"], r2["obs"]["taubinSVD"]) if not o_["exc"] for v_ in o_["pairs"].values())
+                if min(l1["margin"], l2["margin"]) < 1e-3:
+                    pass          # an opening angle sits on the limit: which side the fit's rounding puts it is not promised
+                elif f1_any or l1.get("f1_versors") or l2.get("f1_versors"):
+                    known.append({"id": "F1", "fit": "taubinSVD", "element": g, "what": "excluded set changes through mirrored tangents"})
+                else:
+                    viol.append({"what": "[%s] the interfaces left out by an angle limit differ between the two poses" % g[0],
+                                 "detail": {"limit": l1["limit"], "first": l1["excluded"][:12], "second": l2["excluded"][:12], "margins": [l1["margin"], l2["margin"]]}})
         res = {}
         for fit in FITS:
             o1, o2 = r["obs"][fit], r2["obs"][fit]
